@@ -342,7 +342,7 @@ class Run:
         except exc.IntegrityError as e:
             out = "IntegrityError"
             if not self.faulted_now() and not self.planted and not getattr(self, "expected_integrity", False):
-                self.V("*" if self.case.get("stop_on") and "C31" not in self.case["stop_on"] else "C31", "flush_integrity_error", "flush raised IntegrityError although the final in-memory state satisfies every constraint "
+                self.V("C31", "flush_integrity_error", "flush raised IntegrityError although the final in-memory state satisfies every constraint "
                        "(universe %s, op %s): %s" % (self.cfg["universe"], kind, str(e).split("\n")[0][:100]), op=i)
             self.recover(i, kind)
         except exc.PendingRollbackError:
@@ -1922,6 +1922,8 @@ class Run:
                 for x in self.entries():
                     if x["obj"] is not e["obj"] and self.in_session(x["obj"]) and insp(x["obj"]).key == insp(e["obj"]).key:
                         target = x["obj"]
+            if target is not None and (target in sess.deleted or OS.state_of(target) == "deleted"):
+                return "skip"      # the identity is on its way out (the autoflush merge() starts with deletes it): nothing to merge onto
         names = self.U["scal"][cn]
         given = {}
         if mode == 2:
